@@ -15,6 +15,7 @@ import concurrent.futures
 import json
 import os
 import re
+import subprocess
 
 import lib
 
@@ -34,26 +35,61 @@ ASSUME = [
 JVM = {"JAVA_TOOL_OPTIONS": "-Xss64m -XX:ParallelGCThreads=2 -XX:TieredStopAtLevel=1"}
 
 
-def code_constants():
-    """Size constants of the code under test (the model is checked with what the code says, not with what we remember)."""
-    def grab(rel, pat, what):
-        txt = open(os.path.join(lib.REPO, rel)).read()
-        m = re.search(pat, txt)
-        if not m:
-            raise lib.Inconclusive("cannot find %s in %s" % (what, rel))
-        expr = m.group(1).strip()
-        if not re.fullmatch(r"[0-9<+\-* ()]+", expr):
-            raise lib.Inconclusive("%s in %s is not a constant expression: %r" % (what, rel, expr))
-        # Go gives << the precedence of *, Python puts it below +: parenthesise the shifts first
-        expr = re.sub(r"(\d+)\s*<<\s*(\d+)", r"(\1<<\2)", expr)
-        return int(eval(expr, {"__builtins__": {}}))  # digits, shifts and arithmetic only
-    c = {
-        "server_limit": grab("internal/server/TLS.go", r"const appDataMaxLength = ([^\n/]+)", "appDataMaxLength"),
-        "client_limit": grab("internal/client/TLS.go", r"const appDataMaxLength = ([^\n/]+)", "appDataMaxLength"),
-        "write_limit": grab("internal/common/tls.go", r"if msgLen > ([^{]+)\{", "the TLSConn.Write limit"),
-        "frame_hdr": grab("internal/multiplex/obfs.go", r"const frameHeaderLength = ([^\n/]+)", "frameHeaderLength"),
-        "max_extra": grab("internal/multiplex/obfs.go", r"const maxExtraLen = ([^\n/]+)", "maxExtraLen"),
-    }
+CONST_TESTS = {
+    # package -> body of a generated in-package test that prints the COMPILED values (any constant expression works)
+    "client": 'fmt.Println("VERIFCONST client_limit", int64(appDataMaxLength))',
+    "server": 'fmt.Println("VERIFCONST server_limit", int64(appDataMaxLength))',
+    "multiplex": 'fmt.Println("VERIFCONST frame_hdr", int64(frameHeaderLength)); fmt.Println("VERIFCONST max_extra", int64(maxExtraLen))',
+    # the limit of TLSConn.Write is a literal inside the function: measured by bisection on what Write accepts
+    "common": """lo, hi := 0, 1<<17
+	for lo < hi {
+		mid := (lo + hi + 1) / 2
+		if _, err := NewTLSConn(verifC10Sink{}).Write(make([]byte, mid)); err == nil {
+			lo = mid
+		} else {
+			hi = mid - 1
+		}
+	}
+	fmt.Println("VERIFCONST write_limit", int64(lo))""",
+}
+CONST_SINK = """
+type verifC10Sink struct{ net.Conn }
+
+func (verifC10Sink) Write(p []byte) (int, error) { return len(p), nil }
+"""
+
+
+def code_constants(ctx):
+    """Size constants of the code under test, taken from the COMPILED packages: a tiny generated in-package test per
+    package prints them (named constants, arithmetic, anything the compiler accepts).  Returns None (with a note) if
+    they cannot be obtained: the verdict never depends on them, only the 'model under the code's constants' run does."""
+    d = os.path.join(ctx.work, "consts")
+    os.makedirs(d, exist_ok=True)
+    repl = {}
+    for pkg, body in CONST_TESTS.items():
+        imports = '"fmt"\n\t"testing"' + ('\n\t"net"' if pkg == "common" else "")
+        src = 'package %s\n\nimport (\n\t%s\n)\n%s\nfunc TestVerifC10Const(t *testing.T) {\n\t%s\n}\n' % (
+            pkg, imports, CONST_SINK if pkg == "common" else "", body)
+        f = os.path.join(d, "c10const_%s_test.go" % pkg)
+        open(f, "w").write(src)
+        repl[os.path.join(lib.REPO, "internal", pkg, "zzverif_c10const_test.go")] = f
+    ov = os.path.join(d, "overlay.json")
+    json.dump({"Replace": repl}, open(ov, "w"))
+    e = dict(os.environ)
+    e.update(lib.GOENV)
+    e.pop("GOSUMDB", None)
+    cmd = [lib.GOBIN, "test", "-overlay", ov, "-count=1", "-vet=off", "-run", "^TestVerifC10Const$", "-v"] + \
+          ["./internal/%s/" % p for p in CONST_TESTS]
+    try:
+        p = subprocess.run(cmd, cwd=lib.REPO, env=e, stdout=subprocess.PIPE, stderr=subprocess.STDOUT, text=True, timeout=900)
+    except subprocess.TimeoutExpired:
+        ctx.notes.append("constants: go test timed out")
+        return None
+    c = {m.group(1): int(m.group(2)) for m in re.finditer(r"^VERIFCONST (\w+) (-?\d+)$", p.stdout, re.M)}
+    want = {"server_limit", "client_limit", "write_limit", "frame_hdr", "max_extra"}
+    if set(c) != want:
+        ctx.notes.append("constants of the compiled code not available (%s): %s" % (sorted(want - set(c)), p.stdout[-600:]))
+        return None
     return c
 
 
@@ -71,31 +107,36 @@ def _validate(ctx, path, tag):
 
 def run(ctx):
     q = ctx.quick()
-    k = code_constants()
-    ctx.log("constants of the code under test: %s" % k)
     pool = concurrent.futures.ThreadPoolExecutor(max_workers=8)
     go_f = pool.submit(lib.run_go, ctx, "server", "TestVerifC10(Rig|Parser)", None, 2400, None, False, "TestVerifC10Rig")
+    const_f = pool.submit(code_constants, ctx)
+    std = {"server_limit": 16401, "client_limit": 16401, "write_limit": 16640, "frame_hdr": 14, "max_extra": 255}   # the design's values
     mc = {
-        "mc_code_constants": pool.submit(_mc, ctx, "mc_code_constants", k=k, frames=3 if q else 6),
-        "neg_no_echo": pool.submit(_mc, ctx, "neg_no_echo", dev='{"NoEcho"}', inv="ObserverAccepts", k=k, wire=16401, write=16640),
-        "neg_version_34": pool.submit(_mc, ctx, "neg_version_34", dev='{"Ver34"}', inv="ObserverAccepts", k=k, wire=16401, write=16640),
-        "neg_empty_notice": pool.submit(_mc, ctx, "neg_empty_notice", dev='{"EmptyNotice"}', inv="ObserverAccepts", k=k, wire=16401, write=16640),
-        "neg_empty_frame_sent": pool.submit(_mc, ctx, "neg_empty_frame_sent", dev='{"EmptyFrameSent"}', inv="ObserverAccepts", k=k, wire=16401, write=16640),
-        "neg_random_flag_from_servername": pool.submit(_mc, ctx, "neg_random_flag_from_servername", dev='{"RandomFlagFromServerName"}', inv="ObserverAccepts", k=k, wire=16401, write=16640),
-        "neg_limit_16700": pool.submit(_mc, ctx, "neg_limit_16700", inv="ObserverAccepts", k=k, wire=16700, write=16700),
+        "mc_design_constants": pool.submit(_mc, ctx, "mc_design_constants", k=std, frames=3 if q else 6),
+        "neg_no_echo": pool.submit(_mc, ctx, "neg_no_echo", dev='{"NoEcho"}', inv="ObserverAccepts", k=std),
+        "neg_version_34": pool.submit(_mc, ctx, "neg_version_34", dev='{"Ver34"}', inv="ObserverAccepts", k=std),
+        "neg_empty_notice": pool.submit(_mc, ctx, "neg_empty_notice", dev='{"EmptyNotice"}', inv="ObserverAccepts", k=std),
+        "neg_empty_frame_sent": pool.submit(_mc, ctx, "neg_empty_frame_sent", dev='{"EmptyFrameSent"}', inv="ObserverAccepts", k=std),
+        "neg_random_flag_from_servername": pool.submit(_mc, ctx, "neg_random_flag_from_servername", dev='{"RandomFlagFromServerName"}', inv="ObserverAccepts", k=std),
+        "neg_limit_16700": pool.submit(_mc, ctx, "neg_limit_16700", inv="ObserverAccepts", k=std, wire=16700, write=16700),
     }
+    k = const_f.result()
+    ctx.log("constants of the compiled code under test: %s" % k)
+    if k is not None and k != std:
+        mc["mc_code_constants"] = pool.submit(_mc, ctx, "mc_code_constants", k=k, frames=3 if q else 6)
     mcr = {n: f.result() for n, f in mc.items()}
     for n, r in mcr.items():
         if n.startswith("neg_") and r.violated != "ObserverAccepts":
             raise lib.Inconclusive("negative configuration %s was not rejected by the observer (got %s): the grammar would be vacuous" % (n, r.violated))
-    model_ok = mcr["mc_code_constants"].ok
+    lib.require_ok(mcr["mc_design_constants"], "WireTLS with the design's constants")
+    model_ok = "mc_code_constants" not in mcr or mcr["mc_code_constants"].ok
     if model_ok:
-        ctx.log("observer accepts the sender model under the code's constants (%d distinct states); 6 negative configurations rejected"
-                % mcr["mc_code_constants"].distinct)
+        ctx.log("observer accepts the sender model (%d distinct states, constants %s); 6 negative configurations rejected"
+                % (mcr["mc_design_constants"].distinct, "= the compiled code's" if k == std else "of the design; the code's: %s" % k))
     else:
         # not a verdict yet: the recorded connections decide (a model counter-example must be reproduced on the code)
-        ctx.log("MODEL: with the constants of the code under test the sender model violates %s; the recorded connections decide"
-                % mcr["mc_code_constants"].violated)
+        ctx.log("MODEL: with the constants of the compiled code %s the sender model violates %s; the recorded connections decide"
+                % (k, mcr["mc_code_constants"].violated))
 
     g = go_f.result()
     lib.collect_go(ctx, g)
@@ -160,6 +201,8 @@ def run(ctx):
     if not model_ok and not ctx.violations:
         raise lib.Inconclusive("model counter-example (%s under the code's constants %s) not reproduced on the code by any recorded connection"
                                % (mcr["mc_code_constants"].violated, k))
+    if k is not None and st.get("client_session_MsgOnWireSizeLimit") not in (None, k["client_limit"]):
+        ctx.notes.append("client sessions run with MsgOnWireSizeLimit %s, the generated test printed %s" % (st.get("client_session_MsgOnWireSizeLimit"), k["client_limit"]))
     ctx.log("rig: %d scenarios, %d connections, %d+%d records, largest application record %d; TLC accepted %d connections (%d events), rejected %d file(s)"
             % (st.get("scenarios", 0), st.get("connections", 0), st.get("records_c2s", 0), st.get("records_s2c", 0), st.get("max_app_record", 0),
                conns_ok, events, tlc_rejections))
